@@ -166,8 +166,17 @@ func (r *responseWriter) Close() (err error) {
 
 	if nil != r.chunkWriter {
 		err = r.chunkWriter.Close()
-		if nil == err && r.Header().Get("Trailer") == "" {
-			// no trailer
+		if nil == err {
+			// the trailer fields announced in the Trailer header (the handler sets their values
+			// while it produces the body), then the empty line that ends a chunked body.
+			for _, names := range r.Header().Values("Trailer") {
+				for _, name := range strings.Split(names, ",") {
+					name = http.CanonicalHeaderKey(strings.TrimSpace(name))
+					for _, value := range r.Header()[name] {
+						fmt.Fprintf(r.writer, "%s: %s\r\n", name, value)
+					}
+				}
+			}
 			_, err = fmt.Fprint(r.writer, "\r\n")
 		}
 	}
